@@ -35,6 +35,16 @@ class Oracle:
         return M
 
 
+def tv(x):
+    """(example index, evaluation number) of a returned example - and, like a careless consumer, modify the returned object in place
+    afterwards (top level and nested): what the cache holds must stay frozen"""
+    out = (x[0], x[1][0])
+    x[1][0] = 777
+    x[1].append('junk')
+    x.append('junk')
+    return out
+
+
 def run_history(ld, n, limited, mem, ops, keyed):
     """returns (outs, calls, cache size)"""
     import psutil
@@ -43,7 +53,7 @@ def run_history(ld, n, limited, mem, ops, keyed):
     def fn(i):
         c = calls[i]
         calls[i] += 1
-        return [i, c]
+        return [i, [c]]            # nested: a consumer that modifies what it got must not reach the cached example
     keys = [gen_a.KEYS[i] for i in range(n)]
     src = ld.new(dict(zip(keys, range(n)))) if keyed else ld.new(list(range(n)))
     up = src.map(fn)
@@ -57,7 +67,9 @@ def run_history(ld, n, limited, mem, ops, keyed):
         try:
             # the same threshold (1000 bytes) spelled as a number of bytes, as a share of the total memory, and as a size string
             spelling = [1000, '50%', '1000 B', ' 50 %', '1000'][(n + len(ops) + len(mem)) % 5]
-            if not limited:
+            if (n + len(ops)) % 4 == 1:
+                root = ld.core.CacheDataset(up, spelling if limited else None, immutable_warranty='copy')
+            elif not limited:
                 root = ld.core.CacheDataset(up, None)
             elif (len(ops) + n) % 2:
                 root = up.cache(keep_mem_free=spelling)
@@ -80,12 +92,12 @@ def run_history(ld, n, limited, mem, ops, keyed):
                 d = handles[h]
                 try:
                     if k == 'get':
-                        outs.append(('val', tuple(d[op[2]])))
+                        outs.append(('val', tv(d[op[2]])))
                     elif k == 'getnp':
                         import numpy as np
-                        outs.append(('val', tuple(d[np.int64(op[2])])))
+                        outs.append(('val', tv(d[np.int64(op[2])])))
                     elif k == 'getk':
-                        outs.append(('val', tuple(d[keys[op[2]]])))
+                        outs.append(('val', tv(d[keys[op[2]]])))
                     elif k == 'copy':
                         handles.append(d.copy(freeze=op[2]))
                         outs.append(('new', len(handles) - 1))
@@ -96,18 +108,18 @@ def run_history(ld, n, limited, mem, ops, keyed):
                             ipos[op[2]] = 0
                         try:
                             x = next(iters[op[2]])
-                            outs.append(('val', tuple(x[1] if op[3] else x)))
+                            outs.append(('val', tv(x[1] if op[3] else x)))
                             ipos[op[2]] += 1
                         except StopIteration:
                             outs.append(('end', ipos[op[2]]))
                     elif k == 'iter':
-                        outs.append(('vals', [tuple(x) for x in d]))
+                        outs.append(('vals', [tv(x) for x in d]))
                     elif k == 'items':
-                        outs.append(('vals', [tuple(x[1]) for x in d.items()]))
+                        outs.append(('vals', [tv(x[1]) for x in d.items()]))
                     elif k == 'slice':
-                        outs.append(('vals', [tuple(x) for x in d[op[2]:op[3]]]))
+                        outs.append(('vals', [tv(x) for x in d[op[2]:op[3]]]))
                     elif k == 'prefetch':
-                        outs.append(('vals', [tuple(x) for x in d.prefetch(2, 2)]))
+                        outs.append(('vals', [tv(x) for x in d.prefetch(2, 2)]))
                         handles.append(d.copy(freeze=True))      # the model numbers prefetch's internal copy as a handle
                 except IndexError:
                     outs.append(('indexerror',))
